@@ -137,6 +137,13 @@ func runC01(c C01Case, cs *kit.CaseStats) error {
 		var err error
 		if validated {
 			cs.Class("call=AddValidatedV2Blocks")
+			if nodes[len(nodes)-1].Ledger == nil {
+				cs.Class("validated-batch-above-invalid-ancestor")
+				if nodes[len(nodes)-1].Hdr.SufficientlyHeavierThan(oldState) {
+					cs.Class("validated-batch-above-invalid-ancestor-heavier")
+					cs.NonTrivial()
+				}
+			}
 			for _, n := range nodes {
 				node.Submitted[n.ID] = true
 			}
